@@ -211,6 +211,7 @@ type c12ScenSet struct {
 	Faults     bool // go-to-chain step x {dataloss, doublespend, mempoolfee, pubfail}
 	Restarts   bool // restarts at quiescent points (pre, redeliver, unmarked)
 	Deep       bool // thorough: fault x restart products, pre+redeliver
+	LateStart  bool // time: ONLY sweeps whose first height is past a cutoff / an expiry
 }
 
 // ---------------------------------------------------------------------------
@@ -308,6 +309,29 @@ func timeScenario(c *c12Cell) c12Scenario {
 		}
 	}
 	return c12Scenario{Kind: "time", Lo: lo, Hi: hi}
+}
+
+// lateStartScenarios: the first block the arbitrator sees is already past a cutoff
+// (the node was down, or blocks arrived in a burst): for every HTLC the sweep starts
+// one block after its cutoff and one block after its expiry. Sentence 1 then demands
+// the close at the first delivered height.
+func lateStartScenarios(c *c12Cell) []c12Scenario {
+	seen := map[uint32]bool{}
+	var out []c12Scenario
+	for _, h := range c.HTLCs {
+		d := c.DOut
+		if h.In {
+			d = c.DIn
+		}
+		for _, lo := range []uint32{h.Exp - d + 1, h.Exp + 1} {
+			if seen[lo] {
+				continue
+			}
+			seen[lo] = true
+			out = append(out, c12Scenario{Kind: "time", Lo: lo, Hi: lo + 1, Start: "late"})
+		}
+	}
+	return out
 }
 
 func dispScenarios(c *c12Cell, ss c12ScenSet) []c12Scenario {
@@ -477,6 +501,10 @@ func TestC12(t *testing.T) {
 			{Name: "disp/3-htlc", Kind: "disp", N: 3, Alpha: with(red4, 1), Configs: cfg1, Vars: plain, Scen: base3},
 			// --- audit dimensions ---
 			{Name: "time/1-htlc/special", Kind: "time", N: 1, Alpha: with(uni5, 3), Configs: cfgGraceQ, Vars: varsTime1},
+			{Name: "time/1-htlc/late-start", Kind: "time", N: 1, Alpha: with(uni5, 3), Configs: append(append([]c12Config{}, cfgT...), cfg2G[2]),
+				Vars: feeds2, Scen: c12ScenSet{LateStart: true}},
+			{Name: "time/2-htlc/late-start", Kind: "time", N: 2, Alpha: with(outReg, 2), Configs: cfg2G, Vars: plain,
+				Scen: c12ScenSet{LateStart: true}},
 			{Name: "disp/1-htlc/registry", Kind: "disp", N: 1, Alpha: with(fullReg, 3), Configs: cfgQ, Vars: plain, Scen: base},
 			{Name: "disp/1-htlc/variants", Kind: "disp", N: 1, Alpha: with(full2, 2), Configs: cfgQ, Vars: varsDisp1, Scen: base},
 			{Name: "disp/1-htlc/faults+restarts", Kind: "disp", N: 1, Alpha: with(full2, 2), Configs: cfgQ, Vars: plain,
@@ -502,6 +530,10 @@ func TestC12(t *testing.T) {
 			// --- audit dimensions ---
 			{Name: "time/1-htlc/special", Kind: "time", N: 1, Alpha: with(uni5, 3), Configs: cfgGraceT,
 				Vars: append(append([]c12CellVar{}, varsTime1...), c12CellVar{Numbering: 1, LateFeed: true})},
+			{Name: "time/1-htlc/late-start", Kind: "time", N: 1, Alpha: with(uni5, 3), Configs: cfgGraceT,
+				Vars: varsTime1, Scen: c12ScenSet{LateStart: true}},
+			{Name: "time/2-htlc/late-start", Kind: "time", N: 2, Alpha: with(uni3, 3), Configs: cfgGraceQ, Vars: feeds2,
+				Scen: c12ScenSet{LateStart: true}},
 			{Name: "disp/1-htlc/registry", Kind: "disp", N: 1, Alpha: with(fullReg, 3), Configs: cfgT, Vars: feeds2, Scen: base},
 			{Name: "disp/1-htlc/variants", Kind: "disp", N: 1, Alpha: with(full1, 3), Configs: cfgQ,
 				Vars: append(append([]c12CellVar{}, varsDisp1...), c12CellVar{Numbering: 1, Startup: true},
@@ -512,8 +544,9 @@ func TestC12(t *testing.T) {
 			{Name: "disp/1-htlc/faults+restarts/variants", Kind: "disp", N: 1, Alpha: with(full2, 2), Configs: cfgQ,
 				Vars: []c12CellVar{{Numbering: 1}, {Extras: 1, Hist: 3}, {LateFeed: true}},
 				Scen: c12ScenSet{BreachCoop: true, Faults: true, Restarts: true}},
-			{Name: "time/2-htlc/special", Kind: "time", N: 2, Alpha: with(uniReg, 3), Configs: cfgGraceQ,
-				Vars: []c12CellVar{{}, {SameHash: true}, {LateFeed: true, SameHash: true}, {Numbering: 1}}},
+			{Name: "time/2-htlc/special", Kind: "time", N: 2, Alpha: with(uniReg, 3),
+				Configs: append(append([]c12Config{}, cfg2G...), c12Config{DOut: 1, DIn: 10, GraceMode: 3}, c12Config{DOut: 10, DIn: 1, GraceMode: 1}),
+				Vars:    []c12CellVar{{}, {SameHash: true}, {LateFeed: true, SameHash: true}, {Numbering: 1}}},
 			{Name: "disp/2-htlc/registry", Kind: "disp", N: 2, Alpha: with(fullReg3, 1), Configs: cfg1, Vars: plain, Scen: base3},
 			{Name: "disp/2-htlc/variants", Kind: "disp", N: 2, Alpha: with(full2, 1), Configs: cfgQ,
 				Vars: []c12CellVar{{SameHash: true}, {Numbering: 1}, {Extras: 1, Hist: 3}, {LateFeed: true}}, Scen: base3},
@@ -619,6 +652,22 @@ func TestC12(t *testing.T) {
 			if h.Pre == c12PreHold || h.Pre == c12PreNoInv {
 				dims = append(dims, fmt.Sprintf("registry-answer-%d", h.Pre))
 			}
+		}
+		if j.kind == "time" && j.scen.LateStart {
+			for _, sc := range lateStartScenarios(&cell) {
+				res, obs, viols := runTime(cell, sc, nil)
+				st.execs.Add(1)
+				st.timeExecs.Add(1)
+				st.advances.Add(int64(len(obs.States)))
+				if obs.ForceCloses > 0 {
+					st.nontrivial.Add(1)
+				}
+				lc.dims["time:latestart"]++
+				lc.coarse["time|late-start|"+res.Class]++
+				lc.fine["time|late-start|"+res.Class+"|off="+fmt.Sprint(res.ClosedAt-res.FirstMust)]++
+				report("time", cell, sc, obs, viols)
+			}
+			return
 		}
 		if j.kind == "time" {
 			sc := timeScenario(&cell)
